@@ -5,6 +5,15 @@ props=[json.loads(l)['id'] for l in open('/verif/properties.jsonl')]
 hook_commit="bb694e4"
 # id -> (category, technique, text, note, design_ref)
 C={
+"C02":("model_checking","bounded-exhaustive exploration: every non-trivial write schedule of every enumerated input is executed on the real rewriter and compared (differentially) with the single-write run",
+ "For every enumerated (input, configuration) the output, the API result and the normalised handler log are identical under every 1-cut, every 2-cut (bounded length), byte-wise, empty-write schedule and rewrite_str.",
+ "Differential: a defect that shifts every schedule identically is invisible here (C01/C03/C07 see those). Source locations are compared in C14, not here.","DESIGN.md §4 C02"),
+"C06":("model_checking","bounded-exhaustive relational exploration: every (H, H u O) pair from the menus x every enumerated input x L0 + every 1-cut, both runs on the real rewriter",
+ "No enumerated input, schedule and pair of handler sets (subject set H alone vs H plus any non-empty subset of 6 observers, registered after or before H) makes H's own event log or the sink bytes differ.",
+ "Relational oracle inside the stated menus/bounds; two runs of the same build.","DESIGN.md §4 C06"),
+"C09":("model_checking","bounded-exhaustive exploration of every prefix and every 1-/2-cut schedule of every enumerated input; oracles: fresh-run equality, regular language R-pending, last-token bound",
+ "For every enumerated input, every prefix and schedule: bytes emitted after each write equal those of a fresh rewriter given the same prefix at once; without capturing handlers the held-back suffix is in R-pending (unfinished tag start through its name, or a contextual look-ahead keyword prefix); with observers at most the last token is held back.",
+ "Oracle B (absolute bound) is claimed for the HTML namespace only: inside svg/math the tree-builder simulation legitimately needs whole tags.","DESIGN.md §4 C09"),
 "C01":("model_checking","bounded-exhaustive exploration of the real rewriter: all strings over two adversarial alphabets x observer configs x all 1-/2-cut, byte-wise and empty-write schedules; oracle = byte identity",
  "No execution of the real rewriter, over every string of the fragment alphabet (len<=3 quick/<=4 thorough) and byte alphabet (len<=4/<=6), every observer handler set of a 16-entry menu, strict on/off, 4 encodings and every listed schedule, emits anything but the input (or a prefix on a strict-mode ambiguity error).",
  "Coverage statement inside the stated alphabets/bounds only; the round-trip exception is decided by encoding_rs.","DESIGN.md §4 C01"),
